@@ -17,7 +17,7 @@ RULE = ("inputs near the three special strings (exact, every case variant class,
         "payloads), +-inf, +-0 with every option-string variant incl. None (must panic) and required_mantissa_sign. non-trivial = accepted special or written special; distinct = distinct ops")
 TECHNIQUE = "Lean 4 proof (special_iff / numeric_never_nan / sign preservation on the model and grammar; writer half nan_written_as_configured / nan_never_minus / inf_written_with_sign / finite_written_with_sign / disabled_special_panics on the write_float model) + correspondence on inputs around the configured strings and on special-value writes"
 LEVEL_TEXT = ("Proved in Lean (Props/C15.lean): on the specification grammar a non-numeric input is accepted as NaN/inf exactly when, after the optional sign, it equals a configured string "
-              "under the case rule; numeric inputs never give NaN; signs of zero and infinity are preserved; the model's special-value parser agrees with the grammar for plain formats. Writer half (Props/C15Write.lean, on the buffer-faithful write_float model): a completed call on any NaN returns the configured string after at most a '+' and never a '-'; +-infinity and every finite value incl. +-0 carry '-' exactly when the sign bit is set; a special whose string is None makes the call panic (no return, no fault). "
+              "under the case rule; numeric inputs never give NaN; signs of zero and infinity are preserved; the model's special-value parser agrees with the grammar for plain formats. Writer half (Props/C15Write.lean, on the buffer-faithful write_float model): a completed call on any NaN returns the configured string after at most a '+' and never a '-'; +-infinity and every finite value incl. +-0 carry '-' exactly when the sign bit is set; a special whose string is None makes the call panic (no return, no fault); the same clauses for the power-of-two writers (pow2_nan_written, pow2_inf_written, pow2_finite_written on WriteBinary.writeFloatO). "
               "The implementation is tied to model and grammar by correspondence over a dense neighbourhood of the configured strings, and the writer's special/zero output is compared byte-for-byte with the model.")
 LEVEL_NOTE = "Trusted: Lean kernel; model<->code correspondence; option-string validators are exercised (invalid strings must be rejected by the builder) but modelled by correspondence only."
 
